@@ -14,7 +14,7 @@ RULE = ("per type group a pool of 16-40 values with model keys: neighbours +-1 u
         "min/max, sampled triples for transitivity; reflective random public calls for immutability; distinct key = (group, law, equal/unequal, "
         "same/different calendar) and (type, method) for immutability")
 ASSUMPTIONS = ["model keys: int nanoseconds/seconds/day numbers, calendar id, zone id", "state fingerprint recurses through value types only (stops at CalendarSystem, DateTimeZone, patterns)"]
-MIN_NT = {"quick": 300, "thorough": 600}
+MIN_NT = {"quick": 300, "thorough": 400}
 REQUIRED = {"any": ["pairs", "triples", "cross_calendar_order", "unrelated_order", "immut_calls"]}
 
 DAY = 86400 * 10**9
